@@ -402,6 +402,7 @@ fn main() {
         std::process::exit(1);
     }
     let rep = Reporter::new("C12", "fault_enumeration", &args);
+    let _gag = vh::StderrGag::new();
     let thorough = args.tier == Tier::Thorough;
     let max_len = if thorough { 11 } else { 10 };
     let mut workloads: Vec<Vec<char>> = Vec::new();
